@@ -17,7 +17,9 @@ Theorem C14_class : forall E V r T', NoDup V -> In r V ->
 Proof. exact check_lineage_spec. Qed.
 Print Assumptions C14_class.
 
-(* the messages name exactly the lineages whose class fails the component test *)
+(* DEFINITIONAL (an unfolding of the filter in invalid_lineages: the right-hand side is the boolean test of the model,
+   not a statement about the graph); the declarative versions are C14_names_spec / C14_names_first at the end of this file.
+   the messages name exactly the lineages whose class fails the component test *)
 Theorem C14_names : forall E NL t,
   In t (invalid_lineages E NL) <-> In t (labels_of NL) /\ check_lineage E (all_nodes E NL) (class_of NL t) = false.
 Proof. intros E NL t. unfold invalid_lineages. rewrite filter_In, negb_true_iff. reflexivity. Qed.
@@ -36,3 +38,44 @@ Example C14_nonvacuous :
   invalid_lineages [(1, 2); (3, 2)] [(1, 7); (2, 7); (3, 8)] = [7; 8] /\
   invalid_lineages [(1, 99)] [(1, 7)] = [7].
 Proof. vm_compute. repeat split. Qed.
+
+(* ===================================================================================================
+   Which lineages are named, stated against weak connectivity (LineageNamesLemmas.v); no hypothesis at all
+   (duplicate node ids, cycles, self loops, edges mentioning ids absent from the node list -- e.g. the edges of a node
+   whose lineage id is flagged missing, which validate_data removes from the node list but not from the edge list).
+   =================================================================================================== *)
+From Geff Require Import LineageNamesLemmas.
+
+(* a lineage is named iff its nodes are NOT exactly one weakly connected component of the graph (node set = node list plus
+   every id mentioned by an edge): lineage_class_ok = exists r in the class, forall x, x in the class <-> conn r x *)
+Theorem C14_names_spec : forall E NL t,
+  In t (invalid_lineages E NL) <-> In t (labels_of NL) /\ ~ lineage_class_ok E NL t.
+Proof. exact lineages_names_spec. Qed.
+Print Assumptions C14_names_spec.
+
+(* the same with the reference node the code uses (the first node of the class) *)
+Theorem C14_names_first : forall E NL t,
+  In t (invalid_lineages E NL) <->
+  In t (labels_of NL) /\
+  exists r T', class_of NL t = r :: T' /\ ~ (forall x, In x (r :: T') <-> conn E (all_nodes E NL) r x).
+Proof. exact lineages_names_first. Qed.
+Print Assumptions C14_names_first.
+
+(* accepted iff every lineage id labels exactly one weakly connected component (no NoDup hypothesis, unlike C14_iff) *)
+Theorem C14_accepts_components : forall E NL,
+  invalid_lineages E NL = [] <-> forall t, In t (labels_of NL) -> lineage_class_ok E NL t.
+Proof. exact lineages_nil_classes. Qed.
+Print Assumptions C14_accepts_components.
+
+(* non-vacuity, with the node lists validate_data produces when a lineage id is flagged missing (DataVal.annotated_nodes):
+   chain 1-2-3 with node 2 unlabelled: {1,3} is not a component (2 is connected to it and carries no id): named;
+   node 5 unlabelled and isolated beside the chain 1-2: accepted; both facts read through the theorems *)
+Example C14_names_nonvacuous :
+  ~ lineage_class_ok [(1, 2); (2, 3)] [(1, 7); (3, 7)] 7 /\
+  lineage_class_ok [(1, 2)] [(1, 7); (2, 7)] 7 /\
+  invalid_lineages [(1, 2); (2, 3)] [(1, 7); (3, 7)] = [7].
+Proof.
+  split; [|split; [|vm_compute; reflexivity]].
+  - apply (proj1 (C14_names_spec [(1, 2); (2, 3)] [(1, 7); (3, 7)] 7)). vm_compute. left; reflexivity.
+  - apply (proj1 (C14_accepts_components [(1, 2)] [(1, 7); (2, 7)])); [vm_compute; reflexivity | vm_compute; left; reflexivity].
+Qed.
